@@ -24,7 +24,7 @@ manifest = {
     "hooks": {
         "guard": "none",
         "enable": "no source hooks: the seam is the libc symbol boundary (link-time interposition in the harness binary); /repo is compiled unmodified as a path dependency",
-        "baseline_off_cmd": "cd /repo && cargo test --workspace --no-fail-fast --offline",
+        "baseline_off_cmd": "cd /repo && cargo test --workspace --no-fail-fast --offline -- --test-threads=1",
         "source_commits": [],
         "add_only": True,
     },
@@ -36,7 +36,7 @@ manifest = {
     }],
     "checks": checks,
     "not_applicable": NOT_APPLICABLE,
-    "notes": "See DESIGN.md. Exit 0 = held on everything explored (KNOWN-FINDING lines are informational), 1 = VIOLATION with replay file, 2 = harness/build error.",
+    "notes": "See DESIGN.md. There are no hooks, so the guard is always off; baseline_off_cmd runs the suite single-threaded because three of its own tests (exec_to_string, env_inherit, env_inherit_set) race on the process environment when libtest runs them in parallel in one process (nextest, which runs one process per test, is unaffected). Exit 0 = held on everything explored (KNOWN-FINDING lines are informational), 1 = VIOLATION with replay file, 2 = harness/build error.",
 }
 json.dump(manifest, open("MANIFEST.json", "w"), indent=1)
 print("MANIFEST.json written with %d checks" % len(checks))
